@@ -160,7 +160,16 @@ def crc_value(data, crc_type):
     for symbolic octets the shared uninterpreted/bit-vector CRC of vf.symcrc (functional consistency). '''
     from .. import symcrc
     if not isinstance(data, SBuf):
-        return crc16_x25(data) if crc_type == 1 else crc32c(data)
+        ind = crc16_x25(data) if crc_type == 1 else crc32c(data)
+        # registering the application links it (functional consistency) to CRCs the implementation computed over
+        # the same octets while they were still symbolic; the stand-in's value must agree with the independent one
+        if crc_type == 1:
+            v = symcrc.crc(data, 'x-25', 16, 0x8408, 0xFFFF, 0xFFFF)
+        else:
+            v = symcrc.crc(data, 'crc-32c', 32, 0x82F63B78, 0xFFFFFFFF, 0xFFFFFFFF)
+        if v != ind:
+            raise Unsupported('crcmod stand-in disagrees with the independent CRC')
+        return ind
     if crc_type == 1:
         return symcrc.crc(data, 'x-25', 16, 0x8408, 0xFFFF, 0xFFFF)
     return symcrc.crc(data, 'crc-32c', 32, 0x82F63B78, 0xFFFFFFFF, 0xFFFFFFFF)
